@@ -60,6 +60,8 @@ mod conn_id;
 #[cfg(feature = "introspection")]
 mod introspection_database;
 mod serial_map;
+#[cfg(feature = "verif-hooks")]
+pub mod verif;
 mod versioned_message;
 
 pub use acceptor::{AcceptError, Acceptor};
